@@ -83,17 +83,22 @@ pub fn full_run(fake: &Arc<Mutex<FakeJunos>>, irr: (&str, u16), db: &str) -> Run
     let factory = fake_junos::factory(fake);
     let (host, port) = (irr.0.to_string(), irr.1);
     let db = db.to_string();
-    let res = rt.block_on(async move {
-        tokio::time::timeout(
-            Duration::from_secs(15),
-            bgpfu_junos_agent::verif::run_once(factory, &host, port, &db),
-        )
-        .await
+    // a panic of the code under test inside the run is a failed run (the binary would exit with
+    // 101), not a failure of the harness
+    let res = crate::core::catch(|| {
+        rt.block_on(async move {
+            tokio::time::timeout(
+                Duration::from_secs(15),
+                bgpfu_junos_agent::verif::run_once(factory, &host, port, &db),
+            )
+            .await
+        })
     });
     rt.shutdown_timeout(Duration::from_millis(200));
     match res {
-        Err(_) => RunResult::Stuck,
-        Ok(Ok(())) => RunResult::Ok,
-        Ok(Err(e)) => RunResult::Err(format!("{e:#}")),
+        Err((loc, msg)) => RunResult::Err(format!("the run panicked at {loc}: {msg}")),
+        Ok(Err(_)) => RunResult::Stuck,
+        Ok(Ok(Ok(()))) => RunResult::Ok,
+        Ok(Ok(Err(e))) => RunResult::Err(format!("{e:#}")),
     }
 }
